@@ -157,3 +157,97 @@ def temporaries_distinct(out_ast_text):
     names = set(re.findall(r"__ol_[a-z]+_[a-z]{10}", out_ast_text))
     suffixes = [n[-10:] for n in names]
     return len(suffixes) == len(set(suffixes))
+
+
+# ------------------------------------------------------------------------------------------------
+# second sentence of the property: distinct temporaries never share a name.  Every construct that
+# introduces temporaries is nested in / followed by every other one (and itself) so that two
+# instances of each temporary kind are live at the same time; `@` is replaced by an instance
+# suffix, <INNER> by the nested construct.
+# ------------------------------------------------------------------------------------------------
+NEST = {
+    "for_break": ["for q@ in [1, 2, 3]:", "    <INNER>", "    if q@ == b:", "        break", "    log('fa@', q@)", "else:", "    log('fe@')"],
+    "for_continue": ["for q@ in [1, 2, 3]:", "    <INNER>", "    if q@ == a:", "        continue", "    log('fc@', q@)"],
+    "while_break": ["n@ = 0", "while n@ < 3:", "    n@ += 1", "    <INNER>", "    if n@ == b:", "        break", "    log('wa@', n@)", "else:", "    log('we@')"],
+    "while_continue": ["n@ = 0", "while n@ < 3:", "    n@ += 1", "    <INNER>", "    if n@ == a:", "        continue", "    log('wc@', n@)"],
+    "for_break_late": ["for q@ in [1, 2, 3]:", "    if q@ == b:", "        break", "    <INNER>", "    log('fl@', q@)", "else:", "    log('fle@')"],
+    "return_in_for": ["def rl@():", "    for q@ in [1, 2, 3]:", "        <INNER>", "        if q@ == b:", "            return q@", "        log('ra@', q@)", "    return -1", "log('r@', rl@())"],
+    "return_in_while": ["def rw@():", "    n@ = 0", "    while n@ < 3:", "        n@ += 1", "        <INNER>", "        if n@ == a:", "            return n@", "        log('rwa@', n@)", "    log('rwe@')", "log('rw@', rw@())"],
+    "class_body": ["class K@:", "    ca@ = a", "    <INNER>", "    cb@ = b", "    def m(self_):", "        return (self_.ca@, self_.cb@)", "log('K@', K@().m(), sorted(n for n in vars(K@) if not n.startswith('__')))"],
+    "class_in_method": ["class O@:", "    oa@ = a", "    def m(self_):", "        <INNER>", "        return self_.oa@", "log('O@', O@().m())"],
+    "destructure": ["p@, (q@, *r@) = a, (b, 3, 4)", "<INNER>", "(s@, t@), *u@ = [r@, p@, q@]", "log('d@', p@, q@, r@, s@, t@, u@)"],
+    "aug_subscript": ["dd@ = {'x': 1}", "ll@ = [1, 2, 3]", "dd@['x'] += a", "<INNER>", "ll@[0:2] += [b]", "log('g@', dd@, ll@)"],
+    "from_import": ["from os import sep as sp@, linesep as ls@", "<INNER>", "from os.path import join as jn@", "log('i@', sp@ == jn@('a', 'b')[1], len(ls@))"],
+    "import_dotted": ["import os.path as pth@", "<INNER>", "import math as mth@", "log('m@', pth@.basename('a/b'), mth@.floor(2.5))"],
+    "nonlocal_cell": ["def nl@():", "    t@ = a", "    def inc@():", "        nonlocal t@", "        t@ += 1", "        <INNER>", "        return t@", "    return inc@() + t@", "log('n@', nl@())"],
+    "global_store": ["def gs@():", "    global gv@", "    gv@ = a", "    <INNER>", "    gv@ += b", "gs@()", "log('gv@', gv@)"],
+    "chain": ["log('c1@')", "<INNER>", "log('c2@')", "log('c3@')"],
+}
+# positions that cannot hold every statement kind
+_NO_IMPORT_STAR = ()
+
+
+def _inst(kind, suffix, inner):
+    out = []
+    for l in NEST[kind]:
+        l = l.replace("@", suffix)
+        if "<INNER>" in l:
+            ind = l[: len(l) - len(l.lstrip())]
+            out += [ind + x for x in inner]
+        else:
+            out.append(l)
+    return out
+
+
+def nested_pairs():
+    """(descriptor, source): every construct nested in every construct, every unordered sequence of
+    two constructs, and every construct nested in itself three levels deep"""
+    kinds = list(NEST)
+    leaf = ["log('leaf')"]
+    for o in kinds:
+        for i in kinds:
+            src = "\n".join(_inst(o, "1", _inst(i, "2", leaf))) + "\nlog('end')\n"
+            yield "C09:nest:%s>%s" % (o, i), src
+    for x in range(len(kinds)):
+        for y in range(x, len(kinds)):
+            src = "\n".join(_inst(kinds[x], "1", leaf) + _inst(kinds[y], "2", leaf)) + "\nlog('end')\n"
+            yield "C09:seq:%s+%s" % (kinds[x], kinds[y]), src
+    for o in kinds:
+        src = "\n".join(_inst(o, "1", _inst(o, "2", _inst(o, "3", leaf)))) + "\nlog('end')\n"
+        yield "C09:nest3:%s" % o, src
+
+
+def suffix_provenance(ol, src, configs):
+    """convert `src` with oneliner.utils.unique_id wrapped (harness side, no change to the tree under
+    test) and return the random suffixes that occur in the output but were NOT produced by a
+    unique_id() call during this conversion (a temporary named once at import/class-definition time
+    is shared by every use)"""
+    import re
+    import sys
+
+    made = []
+    patched = []
+    orig = None
+    for mname, mod in list(sys.modules.items()):
+        if mname == "oneliner" or mname.startswith("oneliner."):
+            f = getattr(mod, "unique_id", None)
+            if callable(f):
+                orig = orig or f
+                patched.append((mod, f))
+    if orig is None:
+        return None
+
+    def wrapped(*a, **k):
+        r = orig(*a, **k)
+        made.append(r)
+        return r
+
+    for mod, f in patched:
+        mod.unique_id = wrapped
+    try:
+        out = ol.convert_code_string(src, configs=configs)
+    finally:
+        for mod, f in patched:
+            mod.unique_id = f
+    used = set(m[-10:] for m in re.findall(r"__ol_[a-z_]+?_[a-z]{10}\b", out))
+    return sorted(used - set(made)), len(made), out
